@@ -73,6 +73,12 @@ CHECKS = {
             "multiplicity at the end of the run and whole-run correspondence with the operational model",
             "Catch.bubble is a transcription of emit_error + the catch hook; the tie is the per-error comparison of transitions, revives, started catch steps and error "
             "events with its prediction. That the catching task then completes and the flow continues is carried by the operational model correspondence.", "5 C06"),
+    "C08": ("Lean 4 K1 theorems over the translated emit predicate and message-state map (emitted iff not pending/running/disabled and state unchanged by the hooks; "
+            "created for the created class, the task's own state for terminal states; every start/ending of an enabled task is announced) + monitor lemmas; the Lean "
+            "monitor streamMonitor (multiplicity, created-before-terminal, fields, unique ids, parent-before-child, completeness) runs on the engine's creation / "
+            "transition / generation stream; generated messages incl. inputs and outputs are compared with the operational model; deliveries vs generation per op",
+            "Multiplicity across operations is decided by the monitor on engine streams over generated runs, not by an operational proof. Generation order is observed at "
+            "Emitter::emit_message; cross-task delivery order of independently spawned dispatch tasks is not compared. nanoid collision freedom is trusted.", "5 C08"),
 }
 
 NOT_YET = {}
